@@ -962,6 +962,16 @@ class _Inliner:
         if not isinstance(st.iter, ast.Call) or st.orelse:
             return None
         g, recv = self._callee(st.iter, caller_cls, caller_self)
+        if g is not None and not any(isinstance(n, (ast.Yield, ast.YieldFrom)) for n in ast.walk(g)):
+            # an ordinary helper that returns the collection to loop over: bind its result first, then loop over that
+            self.counter += 1
+            tmp = '%s__h%d' % (g.name.lstrip('_'), self.counter)
+            bind = ast.copy_location(ast.Assign([ast.Name(tmp, ast.Store())], st.iter, lineno=st.lineno), st)
+            rep = self._inline_stmt(bind, caller_cls, caller_self)
+            if rep is None:
+                return None
+            st.iter = ast.copy_location(ast.Name(tmp, ast.Load()), st.iter)
+            return rep + [st]
         if g is None or not any(isinstance(n, (ast.Yield, ast.YieldFrom)) for n in ast.walk(g)):
             return None
         if any(isinstance(n, ast.Return) for n in ast.walk(g)):
